@@ -46,10 +46,24 @@ Check(ev) ==
       n == IF ev.take < 0 \/ ev.take > Len(wantMut) THEN Len(wantMut) ELSE ev.take
       wantValue == SubSeq(wantMut, 1, n)
       L == ev.ledger
-  IN IF ev.panic # "" THEN {F("C16", "panic", ev.panic)} ELSE
+      \* C19: clear() interrupted by a panicking destructor (ev.fclear = k > 0): afterwards the set
+      \* lists nothing that was destroyed, accepts a new amount, and nothing is destroyed twice;
+      \* what it still lists besides the new amount is unspecified (leaks are allowed)
+      wantPost == IF ev.fclear = 0 THEN <<>> ELSE <<<<ev.pairs[1][1], <<77>>>>>>
+      wantValueF == IF ev.take < 0 \/ ev.take >= 1 THEN wantPost ELSE <<>>
+  IN IF ev.panic # "" THEN {F("C16", "panic", ev.panic), F("C08", "panic", ev.panic)}
+     ELSE IF ev.fclear > 0 THEN
+       (IF ev.ref # want THEN {F("C16", "accumulated amounts (got, expected)", <<ev.ref, want>>)} ELSE {})
+       \cup (IF ev.exposed # <<>> THEN {F("C19", "after an interrupted clear() the change set still lists destroyed values", ev.exposed)} ELSE {})
+       \cup (IF L.anomalies # <<>> THEN {F("C19", "a value of the change set was destroyed twice", L.anomalies)} ELSE {})
+       \cup (IF ~ev.fired /\ (ev.post_clear # wantPost \/ ev.value # wantValueF)
+             THEN {F("C16", "after clear() the change set must hold only what is added afterwards (got, expected)", <<ev.post_clear, wantPost>>)} ELSE {})
+     ELSE
        (IF ev.ref # want THEN {F("C16", "accumulated amounts (got, expected)", <<ev.ref, want>>)} ELSE {})
   \cup (IF ev.with_store # wantStore THEN {F("C16", "join with a storage (got, expected)", <<ev.with_store, wantStore>>)} ELSE {})
   \cup (IF ev.after_mut # wantMut THEN {F("C16", "after a mutable join (got, expected)", <<ev.after_mut, wantMut>>)} ELSE {})
   \cup (IF ev.value # wantValue THEN {F("C16", "consuming the change set (got, expected)", <<ev.value, wantValue>>)} ELSE {})
-  \cup (IF L.held # <<>> \/ L.anomalies # <<>> THEN {F("C16", "amount values leaked or dropped twice", <<L.held, L.anomalies>>)} ELSE {})
+  \cup (IF L.held # <<>> \/ L.anomalies # <<>>
+        THEN {F("C16", "amount values leaked or dropped twice", <<L.held, L.anomalies>>),
+              F("C08", "values added to a change set leaked or were destroyed twice (held, anomalies)", <<L.held, L.anomalies>>)} ELSE {})
 =============================================================================
